@@ -126,10 +126,12 @@ func genC01(r *rand.Rand, idx int, tier string) *SolveCase {
 		}
 		return &SolveCase{P: p, Cfg: cfg}
 	}
-	fams := []string{"cnf", "cnf3", "cnf3", "unitrich", "cnf3big", "pigeon", "parity", "cnf"}
+	fams := []string{"cnf", "cnf3", "cnf3", "unitrich", "cnf3big", "pigeon", "parity", "cnf", "chain"}
 	fam := fams[r.Intn(len(fams))]
 	var p *Prob
 	switch fam {
+	case "chain":
+		p = &Prob{Front: "slice", Cons: implicationChains(r), Class: "chain"}
 	case "cnf3big":
 		n := 15 + r.Intn(12)
 		if tier == "thorough" {
@@ -319,4 +321,98 @@ func genC06(r *rand.Rand, idx int, tier string) *SolveCase {
 		cfg.Rst = 1 + r.Intn(6)
 	}
 	return &SolveCase{P: p, Cfg: cfg}
+}
+
+
+// implicationChains: parse-time unit propagation whose result depends on the ORDER of the clauses.  One or two chains of
+// implications x1 -> x2 -> ... written in any direction (forwards, backwards: the units then appear one sweep at a time,
+// at decreasing positions; or shuffled), the unit that sets a chain off anywhere in the list, clauses made of the
+// negations or of the values of literals the chains decide (so that they end up falsified, unit or satisfied only once
+// the whole chain has been followed), and some clauses over other variables in between and behind.
+func implicationChains(r *rand.Rand) []Con {
+	var cons []Con
+	next := 1
+	var decided []int // literals the chains make true
+	nchains := 1 + r.Intn(2)
+	for c := 0; c < nchains; c++ {
+		k := 2 + r.Intn(5)
+		vars := make([]int, k)
+		for i := range vars {
+			vars[i] = next
+			if r.Intn(3) == 0 {
+				vars[i] = -next
+			}
+			next++
+		}
+		var chain []Con
+		for i := 0; i+1 < k; i++ {
+			cl := []int{-vars[i], vars[i+1]}
+			if r.Intn(2) == 0 {
+				cl[0], cl[1] = cl[1], cl[0]
+			}
+			chain = append(chain, Con{Kind: "clause", Lits: cl})
+		}
+		switch r.Intn(3) {
+		case 0: // backwards
+			for i, j := 0, len(chain)-1; i < j; i, j = i+1, j-1 {
+				chain[i], chain[j] = chain[j], chain[i]
+			}
+		case 1:
+			r.Shuffle(len(chain), func(i, j int) { chain[i], chain[j] = chain[j], chain[i] })
+		}
+		cons = append(cons, chain...)
+		decided = append(decided, vars...)
+		// the unit that starts the chain: at the end, at the front, or anywhere
+		unit := Con{Kind: "clause", Lits: []int{vars[0]}}
+		switch r.Intn(3) {
+		case 0:
+			cons = append(cons, unit)
+		case 1:
+			cons = append([]Con{unit}, cons...)
+		default:
+			pos := r.Intn(len(cons) + 1)
+			cons = append(cons[:pos:pos], append([]Con{unit}, cons[pos:]...)...)
+		}
+	}
+	free := next
+	nfree := 2 + r.Intn(4)
+	// clauses over decided literals
+	for i := r.Intn(4); i > 0; i-- {
+		k := 2 + r.Intn(2)
+		cl := make([]int, 0, k)
+		for j := 0; j < k; j++ {
+			l := decided[r.Intn(len(decided))]
+			if r.Intn(4) != 0 {
+				l = -l // false once the chain has been followed
+			}
+			cl = append(cl, l)
+		}
+		if r.Intn(3) == 0 {
+			cl = append(cl, free+r.Intn(nfree))
+		}
+		pos := r.Intn(len(cons) + 1)
+		cons = append(cons[:pos:pos], append([]Con{{Kind: "clause", Lits: cl}}, cons[pos:]...)...)
+	}
+	// clauses over other variables, mostly behind
+	for i := r.Intn(6); i > 0; i-- {
+		cl := []int{}
+		for j := 2 + r.Intn(2); j > 0; j-- {
+			v := free + r.Intn(nfree)
+			if r.Intn(2) == 0 {
+				v = -v
+			}
+			cl = append(cl, v)
+		}
+		if r.Intn(3) == 0 {
+			pos := r.Intn(len(cons) + 1)
+			cons = append(cons[:pos:pos], append([]Con{{Kind: "clause", Lits: cl}}, cons[pos:]...)...)
+		} else {
+			cons = append(cons, Con{Kind: "clause", Lits: cl})
+		}
+	}
+	// sometimes the unit of the first chain goes last of all
+	if r.Intn(3) == 0 {
+		cons = append(cons, Con{Kind: "clause", Lits: []int{decided[0]}})
+	}
+	return cons
 }
